@@ -991,6 +991,19 @@ func (ex *Exec) specEnv(fr *frame, cur *State, lr *loopRec) *SpecEnv {
 	for k, v := range fr.specVars {
 		env.vars[k] = v
 	}
+	// free variables of a closure: the captured variable's current value under its own name
+	for _, fv := range fr.fn.FreeVars {
+		if v, ok := fr.regs[fv]; ok && v.Loc != nil && v.Loc.Kind == LLocal {
+			if _, shadow := env.vars[fv.Name()]; shadow {
+				continue
+			}
+			if pv, isPtr := ex.ptrLocals(cur)[v.Loc.Key]; isPtr {
+				env.vars[fv.Name()] = pv
+			} else if t, live := cur.vars[v.Loc.Key]; live {
+				env.vars[fv.Name()] = Val{T: t, Typ: deref(fv.Type())}
+			}
+		}
+	}
 	// named locals that are live
 	names := map[string][]*ssa.Alloc{}
 	for a, key := range fr.allocKey {
@@ -1049,8 +1062,16 @@ func (ex *Exec) havocAll(s *State) {
 		}
 	}
 	sort.Strings(ks)
+	before := ""
+	if _, ok := u.keySorts["next"]; ok {
+		before = u.get(s, "next")
+	}
 	for _, k := range ks {
 		u.havoc(s, k)
+	}
+	if before != "" {
+		// the allocation counter only grows (the fresh constant is used on this path only)
+		u.fact(app(">=", u.get(s, "next"), before))
 	}
 	ex.warn("havoc of the whole heap (unmodelled call)")
 }
@@ -1889,7 +1910,9 @@ func (ex *Exec) rangeInstr(fr *frame, in *ssa.Range, g string, s *State) string 
 		// Go: an entry present when the statement starts and not removed is produced exactly once;
 		// an entry added during the iteration may or may not be. Remember the starting key set.
 		_, dk0 := ex.mapKeys(xt)
-		rs.dom0 = u.define("rng.dom0", srt, sel(u.get(s, dk0), x.T))
+		// a declared constant (usable in patterns, unlike a defined term that may contain ite)
+		rs.dom0 = u.freshConst("rng.dom0", srt)
+		u.fact(eq(rs.dom0, sel(u.get(s, dk0), x.T)))
 	case *types.Basic:
 		u.keySort(key, SInt)
 		s.vars[key] = "(- 1)"
